@@ -189,7 +189,6 @@ Next == \/ \E k \in PkgKinds : AddPkg(k)
 Spec == Init /\ [][Next]_vars
 
 Done == phase = "done"
-Indexed == phase \in {"detect", "validate", "assemble", "done"}
 
 -----------------------------------------------------------------------------
 (* ---- the property, as invariants ---- *)
@@ -198,11 +197,11 @@ IndexAnswers(m) ==
   /\ ListsExactly(OpGetAll(m), AllPk)
   /\ \A t \in QTypes : ListsExactly(OpGetAllOfType(m, t), OfType(t))
   /\ \A t \in QTypes, n \in QNames : ListsExactly(OpGetSpecific(m, n, t), Specific(n, t))
-IndexCorrect == Indexed => IndexAnswers(index)
+IndexCorrect == (phase = "detect" /\ next = 1) => IndexAnswers(index)   \* right after BuildIndex; nothing writes index later
 \* every detector runs exactly once, against that index
 RunOnce == /\ phase = "detect" => \A i \in 1..Len(dets) : calls[i] = (IF i < next THEN 1 ELSE 0)
            /\ phase \in {"validate", "assemble", "done"} => \A i \in 1..Len(dets) : calls[i] = 1
-SeenCorrect == phase \in {"validate", "assemble", "done"} => \A i \in 1..Len(dets) : IndexAnswers(seen[i])
+SeenCorrect == Done => \A i \in 1..Len(dets) : IndexAnswers(seen[i])
 \* findings intact and tagged; failure iff inconsistent; nothing emitted on failure
 FindingsIntact == Done => /\ Len(result.findings) = Len(ExpectFindings)
                           /\ Range(result.findings) = Range(ExpectFindings)
